@@ -15,7 +15,7 @@ LEVEL = "model_checking"
 RULE = (
     "operation sequences over add_plugin(plugin in {P1{alpha,beta}, P2{beta,gamma}, P3{alpha,gamma,slsqp; not "
     "discoverable}}, name in case variants incl. a name clash, normal|prioritized) on manager 0 or 1, on top of the real "
-    "entry-point plug-ins; after every step ALL 32 lookups (incl. method names that contain a slash, and method names a plug-in matches case-sensitively) (bare names, plugin/method in mixed case, unknown plug-ins and "
+    "entry-point plug-ins; after every step ALL 43 lookups (incl. method names that contain a slash, and method names a plug-in matches case-sensitively) (bare names, plugin/method in mixed case, unknown plug-ins and "
     "methods) via get_plugin and is_supported plus plugins() order are compared on BOTH managers with an ordered-list "
     "reference registry. Exhaustive for length <=3 (quick) / <=5 (thorough) for plug-in type 'optimizer', length <=2 for "
     "the five other types; a Hypothesis rule-based state machine adds long random histories with interleaved lookups. "
@@ -66,7 +66,8 @@ def universe() -> dict[str, Fake]:
 
 
 ADDS = [("P1", "p1", False), ("P1", "P1", True), ("P2", "p2", False), ("P2", "P2", True), ("P3", "p3", False),
-        ("P3", "P3", True), ("P2", "P1", False), ("P1", "myext", False)]  # the last one collides with the installed entry-point plug-in 'MyExt'
+        ("P3", "P3", True), ("P2", "P1", False), ("P1", "myext", False),
+        ("P2", "Größe", False), ("P1", "GRÖSSE", False)]  # the last one collides with the installed entry-point plug-in 'MyExt'
 REAL_METHOD = {"optimizer": "slsqp", "sampler": "norm", "realization_filter": "sort-objective", "function_estimator": "mean",
                "plan_handler": "tracker", "plan_step": "evaluator"}
 
@@ -80,7 +81,12 @@ def lookups(ptype: str) -> list[str]:
             # the method part is handed to the plug-in as written (P2 matches 'Delta' case-sensitively)
             "Delta", "delta", "p2/Delta", "P2/Delta", "p2/delta", "P2/sub/Eps", "p2/sub/eps",
             # the entry-point plug-in installed as 'MyExt'
-            "ext-alpha", "myext/ext-alpha", "MyExt/ext-alpha", "MYEXT/EXT-ALPHA", "myext/alpha", f"external/scipy/{real}" if ptype == "optimizer" else "p3/Sub/Alpha"]
+            "ext-alpha", "myext/ext-alpha", "MyExt/ext-alpha", "MYEXT/EXT-ALPHA", "myext/alpha",
+            # a request for a plug-in that does not exist (or does not support the method) is not a bare request for something else:
+            # the part before the slash happens to be a method name of a discoverable plug-in
+            "alpha/nope", "beta/gamma", f"{real}/anything", "gamma/", "default/alpha",
+            # non-ASCII names: case-insensitive means str.lower() on both sides (two different keys: 'größe' and 'grösse')
+            "größe/beta", "GRößE/beta", "Größe/gamma", "grösse/alpha", "GRÖSSE/beta", "grosse/beta", f"external/scipy/{real}" if ptype == "optimizer" else "p3/Sub/Alpha"]
 
 
 class Model:
@@ -160,7 +166,7 @@ def run_sequence(case: dict[str, Any]) -> dict[str, Any]:
 
 def exhaustive_shard(item: dict[str, Any]) -> Collector:
     col = Collector(ID)
-    ops = [(m, a) for m in (0, 1) for a in range(len(ADDS))]
+    ops = [(m, a) for m in (0, 1) for a in range(item.get("adds", len(ADDS)))]
     states = transitions = 0
     for length in range(item["max_len"] + 1):
         for idx, seq in enumerate(itertools.product(ops, repeat=length)):
@@ -223,7 +229,7 @@ def machine_shard(item: dict[str, Any]) -> Collector:
             self.stats["prio"] += prioritize and did
             self._check(did == expect_ok, "duplicate", f"add_plugin({name!r},{tag},{prioritize}) accepted={did}, expected {expect_ok}")
 
-        @rule(m_i=st.integers(0, 1), l_i=st.integers(0, 31), use_supported=st.booleans())
+        @rule(m_i=st.integers(0, 1), l_i=st.integers(0, 42), use_supported=st.booleans())
         def lookup(self, m_i: int, l_i: int, use_supported: bool) -> None:  # noqa: FBT001
             method = lookups(self.ptype)[l_i]
             self.trace.append(["lookup", m_i, l_i, use_supported])
@@ -309,9 +315,11 @@ def replay(case: dict[str, Any]) -> None:
 
 def shards(tier: str, seed: int) -> list[dict[str, Any]]:
     items: list[dict[str, Any]] = []
-    max_len = 3 if tier == "quick" else 5
-    parts = 8 if tier == "quick" else 48
+    max_len = 3 if tier == "quick" else 4
+    parts = 8 if tier == "quick" else 32
     items.extend({"kind": "exh", "type": "optimizer", "max_len": max_len, "part": i, "parts": parts} for i in range(parts))
+    if tier != "quick":  # length 5 on the first seven registrations (ASCII names) only
+        items.extend({"kind": "exh", "type": "optimizer", "max_len": 5, "adds": 7, "part": i, "parts": 48} for i in range(48))
     items.extend({"kind": "exh", "type": t, "max_len": 2, "part": 0, "parts": 1} for t in TYPES[1:])
     nshard = 4 if tier == "quick" else 16
     examples = 60 if tier == "quick" else 1500
